@@ -132,6 +132,35 @@ func (a *Act) intrinsic(name string, fv FuncV, args []Value) (Value, bool) {
 			out.alts = append(out.alts, IfaceAlt{g: al.g, typ: al.typ, val: a.deepClone(al.val, al.typ, 0)})
 		}
 		return out, true
+	case "(*github.com/golang/protobuf/proto.Buffer).Marshal":
+		// encoding a message into the buffer: SOME encoding of it is appended - an arbitrary byte string
+		// of 0..4 bytes (encodings of one message are not unique: map order, unknown fields), no error
+		bp := args[0].(PtrV)
+		a.mayPanic(bp.nilG, "nil proto.Buffer")
+		st := fv.fn.Signature.Recv().Type().(*types.Pointer).Elem().Underlying().(*types.Struct)
+		bi := -1
+		for i := 0; i < st.NumFields(); i++ {
+			if st.Field(i).Name() == "buf" {
+				bi = i
+			}
+		}
+		if bi < 0 || len(bp.alts) != 1 {
+			panic(unsupported("proto.Buffer layout"))
+		}
+		al := bp.alts[0]
+		root := a.st.heap[al.obj].v
+		path := append(append([]int{}, al.path...), bi)
+		buf := navigate(root, path).(SliceV)
+		enc := ArrayV{e: make([]Value, 4)}
+		for i := range enc.e {
+			enc.e[i] = in.fresh("reencoded", BVS(8))
+		}
+		n := in.fresh("reencodedLen", BVS(64))
+		in.solver.Assert(BvCmp("bvule", n, BV(64, 4)))
+		nb := a.appendOp(buf, SliceV{arr: ptrTo(a.alloc(enc)), len: n, cap: BV(64, 4)})
+		root = a.st.heap[al.obj].v
+		a.st.heap[al.obj] = nv(update(root, path, nb))
+		return nilIface(), true
 	case "github.com/golang/protobuf/proto.DiscardUnknown", "google.golang.org/protobuf/proto.DiscardUnknown":
 		// modelled on messages of the legacy shape only: the unknown fields live in XXX_unrecognized
 		iv := args[0].(IfaceV)
